@@ -63,7 +63,10 @@ fn strategy(i: usize, exact: bool) -> impl Fn(Tier) -> BoxedStrategy<Case> + Sen
                     // exact leg: arbitrary rationals a = an/den, b = bn/den; f64 leg: dyadic a, b so that a x + b y is exact in f64
                     let d = if exact { den } else { 8 };
                     let (a, b) = if mode == 1 || mode == 3 { (Rat(an, d), Rat(an, d)) } else { (Rat(an, d), Rat(bn, d)) };
-                    Case { spec: Some((lin.mk)(n, p)), xs, ys, a, b, ints: vec![i as i64], ..Default::default() }
+                    // f64 leg: one case in three multiplies both coefficients by 2^k2, k2 in {-60, -200, 100} (ints[1]): superposition is
+                    // homogeneous, so a flush-to-zero or clamp at some absolute magnitude shows there and nowhere at ordinary scale
+                    let k2 = if exact { 0 } else { [0i64, 0, 0, 0, -60, -200, 100, 0, -60][p % 9] };
+                    Case { spec: Some((lin.mk)(n, p)), xs, ys, a, b, ints: vec![i as i64, k2], ..Default::default() }
                 })
             })
             .boxed()
@@ -76,7 +79,8 @@ fn check(exact: bool) -> impl Fn(&Case) -> Verdict + Send + Sync {
         let spec = case.spec();
         let sc = if exact { "Q" } else { "f64" };
         let id = format!("C10/{}/superposition/{sc}", lin.name);
-        let (a, b) = (case.a.big(), case.b.big());
+        let k2 = case.ints.get(1).copied().unwrap_or(0) as i32;
+        let (a, b) = (case.a.big() * pow2(k2), case.b.big() * pow2(k2));
         let (x, y) = (bigs(&case.xs), bigs(&case.ys));
         let z: Vec<R> = x.iter().zip(y.iter()).map(|(p, q)| &a * p + &b * q).collect();
         let run = |h: &[R]| -> Vec<Option<XV>> {
@@ -89,7 +93,12 @@ fn check(exact: bool) -> impl Fn(&Case) -> Verdict + Send + Sync {
         };
         let (ox, oy, oz) = (run(&x), run(&y), run(&z));
         let fin_max = |o: &[Option<XV>]| max_abs(o.iter().flatten().filter_map(|v| v.fin()));
-        let scale = a.abs() * fin_max(&ox) + b.abs() * fin_max(&oy) + max_abs(x.iter().chain(y.iter())) + R::one();
+        // homogeneous in (a, b): the admissible noise is relative to what the two terms can contribute (no absolute floor in f64)
+        let scale = if exact {
+            a.abs() * fin_max(&ox) + b.abs() * fin_max(&oy) + max_abs(x.iter().chain(y.iter())) + R::one()
+        } else {
+            a.abs() * (fin_max(&ox) + max_abs(x.iter())) + b.abs() * (fin_max(&oy) + max_abs(y.iter()))
+        };
         let mut compared = 0;
         let mut zero_state = false;
         let mut distinct = std::collections::BTreeSet::new();
@@ -103,7 +112,7 @@ fn check(exact: bool) -> impl Fn(&Case) -> Verdict + Send + Sync {
                     let want = &a * p + &b * q;
                     let tol = if exact { tol_q(&scale) } else { f(1e-9) * &scale };
                     if abs_diff(&want, r) > tol {
-                        return Verdict::fail(format!("{id}|value"), format!("{} step {t}: view(a x + b y) = {} but a view(x) + b view(y) = {} (a = {}/{}, b = {}/{}); x = {}, y = {}", spec.show(), show(r), show(&want), case.a.0, case.a.1, case.b.0, case.b.1, show_rats(&case.xs), show_rats(&case.ys)));
+                        return Verdict::fail(format!("{id}|value"), format!("{} step {t}: view(a x + b y) = {} but a view(x) + b view(y) = {} (a = {}/{} x 2^{k2}, b = {}/{} x 2^{k2}); x = {}, y = {}", spec.show(), show(r), show(&want), case.a.0, case.a.1, case.b.0, case.b.1, show_rats(&case.xs), show_rats(&case.ys)));
                     }
                     if r.is_zero() && !p.is_zero() {
                         zero_state = true;
@@ -143,7 +152,7 @@ fn ultra_check(case: &Case) -> Verdict {
     let (seed, len, shape) = (case.ints[1] as u64, case.ints[2] as usize, case.ints[3]);
     let xs = gen::to_rats(&gen::ultra_stream(seed, len, shape), Rat(1, 8));
     let ys = gen::to_rats(&gen::ultra_stream(seed ^ 0x5A5A5A, len, (shape + 1) % 4), Rat(1, 8));
-    let full = Case { xs, ys, ..case.clone() };
+    let full = Case { xs, ys, ints: vec![case.ints[0], 0], ..case.clone() };
     match check(false)(&full) {
         Verdict::Fail { sig, msg } => {
             let cut = msg.find("; x = ").unwrap_or(msg.len());
@@ -243,7 +252,7 @@ pub fn clauses() -> Vec<Clause> {
     for (i, lin) in LINEAR.iter().enumerate() {
         let heavy = matches!(lin.name, "SuperSmoother" | "RoofingFilter" | "Alma" | "AlmaCustom");
         v.push(Clause::generated("C10", format!("C10/{}/superposition/Q", lin.name), format!("{g} Oracle: out_z = a out_x + b out_y and identical readiness at every step, exactly in Q. Non-trivial: x != y, >= 3 steps compared, >= 2 distinct combined outputs."), if heavy { 500 } else { 1200 }, 30_000, strategy(i, true), check(true)).with_shard(if heavy { 32 } else { 100 }));
-        v.push(Clause::generated("C10", format!("C10/{}/superposition/f64", lin.name), format!("{g} f64 with dyadic a, b (a x + b y exact); tolerance 1e-9 (|a| max|out_x| + |b| max|out_y| + max|x,y| + 1)."), 1500, 40_000, strategy(i, false), check(false)).with_shard(500));
+        v.push(Clause::generated("C10", format!("C10/{}/superposition/f64", lin.name), format!("{g} f64 with dyadic a, b (a x + b y exact), one case in three with both multiplied by 2^-60, 2^-200 or 2^100; tolerance 1e-9 (|a| (max|out_x| + max|x|) + |b| (max|out_y| + max|y|)): homogeneous, no absolute floor."), 1500, 40_000, strategy(i, false), check(false)).with_shard(500));
     }
     v.push(Clause::enumerated("C10", "C10/ultra/enumerated", "Enumerated: every linear view (incl. the custom constructors) at two windows (minimum or 3; 16), x and y of 135 000 values each (thorough 1.1e6; past 2^16 and 2^17 updates) from two seeds on the 1/8 grid, a in {3/8, -5/8}, b = 5/8; f64, same oracle and tolerance as the f64 superposition clauses at every step.", ultra_cases, ultra_check).with_shard(2));
     v.push(Clause::enumerated("C10", "C10/dc/enumerated", "Enumerated: every N in 1..64 and {72, 81, 90, 96, 100, 110, 128, 150, 160, 200, 256, 300, 333, 400, 500, 512, 700, 777, 1024} (thorough: every N to 256, then every 8th to 1024) (CyberCycle from 3; RoofingFilter with M in {1,3,10}), constant stream c of length 2T, T = 100 max(N, M, 25): SuperSmoother within 1e-6|c| of c, RoofingFilter and CyberCycle within 1e-6|c| of 0 on [T, 2T] (f64); LaguerreFilter returns c exactly from its first output for every gamma of the grid (Q). (Sma, Ema, Alma: C04/constant.)", dc_cases, dc_check).with_shard(16));
